@@ -164,8 +164,28 @@ def mbstandalone():
     return outs
 
 
+def tildeesc():
+    """EXHAUSTIVE: a tag closing with `~}}` x the text behind it beginning with whitespace of every class (ASCII, vertical tab / form
+    feed, the non-ASCII spaces U+00A0 U+2003 U+3000 U+2028) x a filler x an escape `\\{{` behind it (at the very end, before a
+    multi-byte character, before more text): the trim and the removal of the escape's backslash work on the same text"""
+    outs = []
+    tags = [("{{a~}}", ""), ("{{#if a~}}", "{{/if}}"), ("{{{a~}}}", ""), ("{{> p~}}", ""), ("{{#if a}}x{{else~}}", "{{/if}}"), ("{{~! c ~}}", ""),
+            ("{{#if a}}x{{/if~}}", ""), ("{{&a~}}", "")]
+    wss = [" ", "\n", "\u00a0", "\u3000", "\u2003", "\x0b", "\x0c", "\u2028", "\u00a0\u00a0", " \u3000", "\u3000 ", "\n\u2003\n", "\u0085"]
+    for tag, close in tags:
+        for ws in wss:
+            for mid in ("", "x", "\u65e5"):
+                for esc in ("\\{{", "\\{{\u65e5\u672c}}", "\\{{x}} y", "\\\\{{a}}", "\\{{{{x}}"):
+                    outs.append(tag + ws + mid + esc + close)
+                    outs.append("t " + tag + ws + mid + esc + close + "\n")
+    return outs
+
+
 def generate(rng, n, tier="quick"):
     out = []
+    for k, src in enumerate(tildeesc()):
+        out.append(({"kind": "compile", "src": src, "name": None, "prevent_indent": False, "id": "%s-tesc-%05d" % (ID, k)},
+                    {"mode": "tildeesc", "src": src}))
     for k, src in enumerate(mbstandalone()):
         out.append(({"kind": "compile", "src": src, "name": ("t" if k % 3 == 0 else None), "prevent_indent": (k % 3 == 0), "id": "%s-mbsa-%05d" % (ID, k)},
                     {"mode": "mbsa", "src": src}))
